@@ -759,7 +759,9 @@ def oracle_run(ctx, rec, prob, label, check_convergence=True):
             else:
                 bad('subsolv', 'KKT residual of the returned point <= 0.9*epsi_last', k, expected=0.9 * el, got=rmax, sub=sub_json(s))
     # ---- convergence (validated, not proved)
-    if check_convergence and rec.calls:
+    if check_convergence and rec.calls and float(np.max(gmove)) >= 1.0:
+        ctx.count('convergence_not_demanded(move>=1: no effective move limit)')      # integer-typed move limits are 1
+    elif check_convergence and rec.calls:
         ctx.search_evaluations += 1
         xs = np.array(prob['xstar'])
         d0 = float((np.abs(rec.calls[0].xval - xs) / dx).max())
@@ -887,7 +889,8 @@ def run(ctx):
         'CONVERGENCE IS VALIDATED, NOT PROVED: "iterates approach the optimum, constraints end up satisfied" is checked by the oracle on generated '
         'problems only (partial); MMA without globalisation can cycle on non-separable constraints when the asymptote offset is clamped from below, '
         f'so the oracle demands only distance <= max({CONV_ABS}, {CONV_REL}*initial distance) (relative to xmax-xmin) and scaled constraint violation <= {CONV_G} '
-        'after 40 (quick) / 60 iterations on problems with at least one active constraint; failures with asybound < 6 are the known finding K04 (MMA cycles)',
+        'after 40 (quick) / 60 iterations on problems with at least one active constraint and a move limit < 1 (an integer-typed move limit is 1, i.e. no move limit: there MMA '
+        'without globalisation oscillates longer and convergence is not demanded); failures with asybound < 6 are the known finding K04 (MMA cycles)',
         'the Newton direction inside subsolv (which uses np.linalg.solve) and np.linalg.norm are parameters of the model: the interior and exit '
         'theorems hold for every direction / norm; convergence of the Newton iteration is not claimed (known finding: subsolv gives up)',
     ]
